@@ -1,4 +1,5 @@
 import RV.C09.LitLemmas
+import RV.C09.DurLemmas
 /-
   C09 — "Literal ↔ Python value mapping is faithful and normalisation is idempotent":
   property statements (each first as `def Statement_… : Prop` at full strength) and theorems.
@@ -168,7 +169,37 @@ theorem denotes_cases :
     (∀ v l, Supported v → (∀ n c e, v ≠ .dec n c e) → mkValue v none = some l → Denotes l) :=
   ⟨fun _ _ _ => denotes_mkLex_false, fun _ _ _ => denotes_mkLex_true, fun _ _ => denotes_mkValue⟩
 
+/-! ## 5. durations: the repo-owned printer and parser -/
+
+/-- what `duration_isoformat` writes, `parse_xsd_duration` reads back as the same value — for every
+    timedelta (`isDur = false`) and every Duration with whole years and `0 ≤ months < 12` (the
+    constructor's invariant) inside timedelta's range, on integer microseconds (after fix C09-F3 there
+    is no float on this path).  A Duration of 0 years 0 months comes back as the equal timedelta. -/
+def Statement_duration_roundtrip : Prop :=
+  ∀ (y m us : Int) (isDur : Bool) (lx : Str), 0 ≤ m ∧ m < 12 → tdInRange us = true →
+    durationIso y m us isDur = some lx →
+    parseXsdDuration lx = some (if isDur && !(y == 0 && m == 0) then .duration y m us else .timedelta us)
+
+theorem duration_roundtrip : Statement_duration_roundtrip :=
+  fun y m us isDur lx hm hr h => parse_durationIso y m us isDur lx hm hr h
+
+/-- mixed signs have no XSD form: the printer refuses them (and only them) -/
+def Statement_duration_printer_total : Prop :=
+  ∀ (y m us : Int) (isDur : Bool),
+    (durationIso y m us isDur).isSome = true ↔
+      ¬ ((isDur && !(y == 0 && m == 0)) = true ∧ ((us < 0 ∧ ¬ (y * 12 + m < 0)) ∨ (0 < us ∧ y * 12 + m < 0)))
+
+theorem duration_printer_total : Statement_duration_printer_total := by
+  intro y m us isDur
+  simp only [durationIso]
+  by_cases h1 : us < 0 <;> by_cases h2 : 0 < us <;> by_cases h3 : y * 12 + m < 0 <;>
+    cases hh : (isDur && !(y == 0 && m == 0)) <;> simp [h1, h2, h3] <;> (try split) <;> simp <;> omega
+
 /-! ## Non-vacuity: the hypotheses are met by concrete, non-trivial instances -/
+
+example : durationIso (-2) 10 (-273906700000) true = some "-P1Y2M3DT4H5M6.7S".toList ∧
+    tdInRange (-273906700000) = true := by decide
+
 
 example : Spec.validLex .unsignedByte "+0255".toList = true ∧ Covered .unsignedByte = true := by decide
 example : Spec.validLex .decimal "-.50".toList = true ∧ Covered .decimal = true := by decide
